@@ -62,7 +62,7 @@ type c08Ranges struct {
 	U uint8   `json:"u,default=4,range=(2:6)"`
 }
 
-//verif:entry tier=quick,thorough steps=4000000 maporder=first cover=accepted,rejected,missing,outofrange,nan,jsonnumber,mismatch,default,pointer
+//verif:entry native tier=quick,thorough steps=4000000 maporder=first cover=accepted,rejected,missing,outofrange,nan,jsonnumber,mismatch,default,pointer
 //verif:doc Unmarshaler("json").Unmarshal into struct{A int range=[1:5]; C float64 optional range=(0:1]; F *int optional range=[0:10); U uint8 default=4 range=(2:6)} through the real reflection-driven traversal: every key present or absent; numbers supplied as native Go numbers of the field's kind (symbolic: every int in +-2^40, every float64 incl. NaN/inf), as json.Number numerals, as a value of the wrong kind, or nil. Accepted iff every required field is supplied and every supplied number lies inside its declared range (open/closed ends respected); on success the target holds exactly the supplied values, defaults for absent fields, nil for an absent optional pointer; never a panic.
 func Verif_C08_StructRanges() {
 	m := map[string]any{}
@@ -157,7 +157,7 @@ type c08Opts struct {
 	S string `json:"s,default=y,options=[x,y]"`
 }
 
-//verif:entry tier=quick,thorough steps=4000000 maporder=first cover=accepted,rejected,badoption,depboth,depmixed,notdep,default
+//verif:entry native tier=quick,thorough steps=4000000 maporder=first cover=accepted,rejected,badoption,depboth,depmixed,notdep,default
 //verif:doc Unmarshaler("json").Unmarshal into struct{B string options=x|y; E string optional=b; N string optional=!b; D int default=3 options=3|4; S string default=y options=[x,y]}: every key present or absent, strings as atoms (equal to an option or not: solver-chosen), D as native int or json.Number from {2,3,4}: accepted iff B is supplied and is one of its options, E is supplied exactly when B is, N exactly when B is not, and every supplied D/S is one of its options; then the target holds the supplied values and the defaults for absent fields.
 func Verif_C08_StructOptions() {
 	m := map[string]any{}
@@ -241,7 +241,7 @@ func c08StrInput(name string, numerals []string, vary bool) (val any, text strin
 	return 1, text, true
 }
 
-//verif:entry tier=quick,thorough steps=4000000 maporder=first cover=accepted,rejected,jsonnumber,notoption,outofrange,garbage,wrongkind,pointer
+//verif:entry native tier=quick,thorough steps=4000000 maporder=first cover=accepted,rejected,jsonnumber,notoption,outofrange,garbage,wrongkind,pointer
 //verif:doc Unmarshaler("json").Unmarshal into struct{L int string options=1|2; R int64 string range=[1:5]; P *int string optional options=1|2; X float64 string optional range=[0:1)}: values written as Go strings or as json.Number literals from small numeral sets (inside/outside the options and ranges, non-numeric text, NaN), or as native numbers (wrong kind for a `string` field): accepted iff L and R are supplied, every supplied value is textual and parses, L and P are among their options and R, X inside their ranges; the target then holds the parsed numbers.
 func Verif_C08_StructFromString() {
 	m := map[string]any{}
@@ -318,7 +318,7 @@ type c08Outer struct {
 	Req  *int           `json:"req,range=[0:9]"`
 }
 
-//verif:entry tier=quick,thorough steps=4000000 maporder=first cover=accepted,rejected,nestedmissing,nestedrange,pointer,slice,mapfield,requiredpointer
+//verif:entry tier=quick,thorough native steps=4000000 maporder=first cover=accepted,rejected,nestedmissing,nestedrange,pointer,slice,mapfield,requiredpointer
 //verif:doc Unmarshaler("json").Unmarshal into struct{In Inner; Ptr *Inner optional; List []int optional; M map[string]int optional; Req *int range=[0:9] (required)} with Inner{V int range=[0:9]; W string optional}: nested maps present or absent, V symbolic in +-2^20 (or missing), list of 0..2 symbolic ints, map of 0..1 entries: accepted iff the required nested struct and its required field are supplied and every supplied V lies in its range; the target then mirrors the input exactly (nested values, pointer allocated only when supplied, slice and map contents).
 func Verif_C08_StructNested() {
 	m := map[string]any{}
